@@ -145,16 +145,39 @@ fn c16_corpus(tier: Tier) -> Vec<(String, Spec)> {
     v
 }
 
+/// definitions the Spec type cannot express (generics, lifetimes, byte regexes with two isolated holes)
+fn c16_raw() -> Vec<(String, String)> {
+    let mut v = vec![];
+    let mut add = |n: &str, s: &str| v.push((n.to_string(), s.to_string()));
+    add("raw_lifetime_none", "#[logos(lifetime = none)] enum T<'s> { #[token(\"a\")] A(&'s str), #[regex(\"[0-9]+\")] N }");
+    add("raw_lifetime_none2", "#[logos(lifetime = none)] enum T<'s> { #[regex(\"[a-z]+\")] W(&'s str) }");
+    add("raw_lifetime_s", "enum T<'s> { #[regex(\"[a-z]+\", |lex| lex.slice())] W(&'s str) }");
+    add("raw_lifetime_a", "enum T<'a> { #[regex(\"[a-z]+\", |lex| lex.slice())] W(&'a str) }");
+    add("raw_generic", "#[logos(type S = &str)] enum T<S> { #[regex(\"[a-z]+\")] W(S), #[token(\"x\")] X }");
+    add("raw_generic2", "#[logos(type S = u8, type U = u16)] enum T<S, U> { #[regex(\"[a-z]+\", |_| 1)] W(S), #[token(\"x\", |_| 2)] X(U) }");
+    add("raw_except2", "#[logos(utf8 = false)] enum T { #[regex(b\"=[^,\\n]+\")] A }");
+    add("raw_except2b", "#[logos(utf8 = false)] enum T { #[regex(b\"q[^\\x00\\xff]z\")] A, #[regex(b\"[^ay][0-9]\")] B }");
+    add("raw_except3", "#[logos(utf8 = false)] enum T { #[regex(b\"=[^,;\\n]+\")] A, #[regex(b\"'[^'\\\\]'\")] B }");
+    add("raw_extras_error", "#[logos(extras = Vec<u8>, error = E)] #[logos(skip \" +\")] enum T { #[regex(\"[a-z]+\", cb)] W, #[token(\"=\")] Eq }");
+    add("raw_crate", "#[logos(crate = my::logos)] enum T { #[token(\"a\")] A, #[token(\"b\")] B }");
+    v
+}
+
 pub fn c16(a: &Args) -> Report {
     let mut rep = Report::new(&a.prop, "vgraph c16", &a.tier_name);
-    let corpus = c16_corpus(a.tier);
+    let mut corpus = c16_corpus(a.tier);
+    let n_spec = corpus.len();
+    let raw = c16_raw();
+    for (n, _) in &raw {
+        corpus.push((n.clone(), Spec::new(true, vec![])));
+    }
     let full = a.tier == Tier::Thorough;
     let pair_limit = if full { 100 } else { 24 };
     rep.bounds.insert("deviations".into(), format!("bound 1: every seam call x non-identity permutations (all for length <= 4; above: {}); bound 2 (pairs of deviations: reversal x reversal, transposition x transposition) for every definition with at most {pair_limit} seam calls that offer a choice; both code generators", if full { "adjacent transpositions + reversal + rotations" } else { "reversal, rotation, first and last transposition" }));
     let mut sized: Vec<(usize, usize)> = corpus.iter().enumerate().map(|(i, (_, s))| (s.pats.len(), i)).collect();
     sized.sort();
     let small: BTreeSet<usize> = sized.iter().take(20).map(|x| x.1).collect();
-    let srcs: Vec<String> = corpus.iter().map(|(_, s)| s.render("T", "")).collect();
+    let srcs: Vec<String> = corpus.iter().enumerate().map(|(i, (_, s))| if i >= n_spec { raw[i - n_spec].1.clone() } else { s.render("T", "") }).collect();
     // run 0 (twice) per (definition, generator)
     let bases: Vec<(GenRun, bool)> = (0..corpus.len() * 2)
         .into_par_iter()
@@ -174,7 +197,7 @@ pub fn c16(a: &Args) -> Report {
         let (d, sm) = (i / 2, i % 2 == 1);
         rep.count("traces_validated_against_impl", 2);
         if !same {
-            rep.violations.push(viol("NONDETERMINISTIC", "c16", format!("{} sm={sm}", corpus[d].0), "two runs with every seam in canonical order differ: a hash-iteration site that is not behind a sort (nondeterminism the seams do not own)".into(), json!({"spec": corpus[d].1, "sm": sm, "script": []})));
+            rep.violations.push(viol("NONDETERMINISTIC", "c16", format!("{} sm={sm}", corpus[d].0), "two runs with every seam in canonical order differ: a hash-iteration site that is not behind a sort (nondeterminism the seams do not own)".into(), json!({"spec": corpus[d].1, "src": srcs[d], "sm": sm, "script": []})));
             continue;
         }
         rep.count("states", base.log.len() as u64);
@@ -250,7 +273,7 @@ pub fn c16(a: &Args) -> Report {
                     "c16",
                     format!("{} sm={} seam={site}", corpus[j.def].0, j.sm),
                     format!("permuting the hash-iteration order at seam call(s) {:?} ({site}) changes the {what}", j.script),
-                    json!({"spec": corpus[j.def].1, "sm": j.sm, "script": j.script}),
+                    json!({"spec": corpus[j.def].1, "src": srcs[j.def], "sm": j.sm, "script": j.script}),
                 ));
             }
         }
@@ -274,7 +297,7 @@ pub fn c16(a: &Args) -> Report {
                 rep.count("traces_validated_against_impl", 1);
                 rep.count("history_order_runs", 1);
                 if t != bases[d * 2 + sm as usize].0.tokens && bases[d * 2 + sm as usize].1 {
-                    rep.violations.push(viol("HISTORY-DEPENDENT", "c16", format!("{} sm={sm}", corpus[d].0), format!("the output for this definition differs when other definitions were expanded before it on the same thread ({} order)", if rev { "reverse" } else { "forward" }), json!({"spec": corpus[d].1, "sm": sm, "script": [], "history": true})));
+                    rep.violations.push(viol("HISTORY-DEPENDENT", "c16", format!("{} sm={sm}", corpus[d].0), format!("the output for this definition differs when other definitions were expanded before it on the same thread ({} order)", if rev { "reverse" } else { "forward" }), json!({"spec": corpus[d].1, "src": srcs[d], "sm": sm, "script": [], "history": true})));
                 }
             }
         }
@@ -283,8 +306,8 @@ pub fn c16(a: &Args) -> Report {
     rep.notes.push(format!("seam sites reached: {:?}", sites));
     // supplement (a sample of real hash seeds, labelled as such): fresh threads have fresh RandomState keys
     let mut thread_runs = 0u64;
-    for (name, spec) in corpus.iter().take(if a.tier == Tier::Thorough { usize::MAX } else { 40 }) {
-        let src = spec.render("T", "");
+    for (d, (name, spec)) in corpus.iter().enumerate().filter(|(d, _)| a.tier == Tier::Thorough || *d < 40 || *d >= n_spec) {
+        let src = srcs[d].clone();
         for sm in [false, true] {
             let outs: Vec<String> = (0..8)
                 .map(|_| {
@@ -297,7 +320,7 @@ pub fn c16(a: &Args) -> Report {
                 .collect();
             thread_runs += 8;
             if outs.iter().any(|o| *o != outs[0]) {
-                rep.violations.push(viol("THREAD-DEPENDENT", "c16", format!("{name} sm={sm}"), "outputs of generate() differ between threads (different hash seeds)".into(), json!({"spec": spec, "sm": sm, "script": [], "threads": 8})));
+                rep.violations.push(viol("THREAD-DEPENDENT", "c16", format!("{name} sm={sm}"), "outputs of generate() differ between threads (different hash seeds)".into(), json!({"spec": spec, "src": src, "sm": sm, "script": [], "threads": 8})));
             }
         }
     }
@@ -884,7 +907,7 @@ pub fn replay(a: &Args, rec: &serde_json::Value) -> Report {
             let spec: Spec = serde_json::from_value(r["spec"].clone()).expect("spec");
             let sm = r["sm"].as_bool().unwrap_or(false);
             let script: Script = serde_json::from_value(r["script"].clone()).unwrap_or_default();
-            let src = spec.render("T", "");
+            let src = r["src"].as_str().map(|x| x.to_string()).unwrap_or_else(|| spec.render("T", ""));
             let src_b = src.clone();
             let base = std::thread::spawn(move || gen_with(&src_b, sm, vec![])).join().unwrap();
             let differs = if r["history"].as_bool() == Some(true) {
@@ -892,7 +915,8 @@ pub fn replay(a: &Args, rec: &serde_json::Value) -> Report {
                 let corpus = c16_corpus(Tier::Quick);
                 let mut found = false;
                 for rev in [false, true] {
-                    let srcs: Vec<String> = corpus.iter().map(|(_, s)| s.render("T", "")).collect();
+                    let mut srcs: Vec<String> = corpus.iter().map(|(_, s)| s.render("T", "")).collect();
+                    srcs.extend(c16_raw().into_iter().map(|x| x.1));
                     let target = src.clone();
                     let outs: Vec<String> = std::thread::spawn(move || {
                         let mut order: Vec<usize> = (0..srcs.len()).collect();
